@@ -66,6 +66,7 @@ type Contract struct {
 	CallSites     []CallSiteSpec
 	Exits         []ExitSpec
 	StoreSites    []StoreSpec
+	Defines       []Clause // result named by an uninterpreted function (assumed at call sites)
 	NoWrap        bool
 	NoWrapAssumed bool
 	RealDiv       bool
@@ -402,6 +403,14 @@ func (c *Ctx) parseContracts(p *packages.Package) error {
 						}
 						cur.Exits = append(cur.Exits, ExitSpec{Ord: k, Clause: cl})
 						lastClause = &cur.Exits[len(cur.Exits)-1].Clause
+					case "defines":
+						// defines <uninterpreted call> : result == that call, assumed at call sites only
+						cl, err := parseClause("result == " + strings.TrimSpace(rest))
+						if err != nil {
+							return fmt.Errorf("%s: %v", where, err)
+						}
+						cur.Defines = append(cur.Defines, cl)
+						lastClause = &cur.Defines[len(cur.Defines)-1]
 					case "store":
 						// store <assignment text> requires [label:] expr : holds right after that assignment
 						k := strings.Index(rest, " requires ")
